@@ -25,7 +25,7 @@ TRUSTED_BASE = [
 	'Lean 4.33 kernel; axioms of the property theorems: subset of {propext, Classical.choice, Quot.sound}',
 	'byte identity of the two 350 KB modules is an executed comparison, not a theorem (string literals of that size do not elaborate)',
 	'yaml stand-in in /verif/shims (catparser.__main__ imports yaml; --quiet runs never dump YAML)',
-	'emission plan model SymbolVerif/Model/Codec/Emission.lean covers class order, TYPE_HINTS and the text of the serialize/_serialize/size bodies; other method bodies are not modelled',
+	'emission plan model SymbolVerif/Model/Codec/Emission.lean covers class order, TYPE_HINTS and the text of the serialize/_serialize/size/deserialize/_deserialize bodies; constructors, accessors, sort, __str__ and the enum/alias classes are not modelled as text',
 ]
 ASSUMPTIONS = ['the generator is run with /venv/bin/python; other interpreter versions are out of scope']
 
@@ -68,7 +68,7 @@ def module_skeleton(text):
 
 
 def method_bodies(text):
-	"""{class: {method: [body lines, dedented]}} for serialize, _serialize and the size property of every class of a generated module."""
+	"""{class: {method: [body lines, dedented]}} for serialize, _serialize, size, deserialize and _deserialize of every class of a generated module."""
 	tree = ast.parse(text)
 	lines = text.split('\n')
 	result = {}
@@ -77,7 +77,7 @@ def method_bodies(text):
 			continue
 		methods = {}
 		for item in node.body:
-			if isinstance(item, ast.FunctionDef) and item.name in ('serialize', '_serialize', 'size'):
+			if isinstance(item, ast.FunctionDef) and item.name in ('serialize', '_serialize', 'size', 'deserialize', '_deserialize'):
 				body = lines[item.body[0].lineno - 1:item.end_lineno]
 				methods[item.name] = [line[2:] if line.startswith('\t\t') else line for line in body]
 		result[node.name] = methods
@@ -85,7 +85,7 @@ def method_bodies(text):
 
 
 def compare_bodies(ctx, driver, label, schema, text):
-	"""The serialize / _serialize / size bodies of every struct class against the text the Lean emission model derives from the IR."""
+	"""The serialize / _serialize / size / deserialize / _deserialize bodies of every struct class against the text the Lean emission model derives from the IR."""
 	bodies = method_bodies(text)
 	ir = cats.to_json(schema)
 	requests = []
@@ -96,6 +96,9 @@ def compare_bodies(ctx, driver, label, schema, text):
 		requests.append((name, 'size', f'body size {name} {ir}'))
 		if typedef['abstract']:
 			requests.append((name, '_serialize', f'body _serialize {name} {ir}'))
+			requests.append((name, '_deserialize', f'body _deserialize {name} {ir}'))
+		else:
+			requests.append((name, 'deserialize', f'body deserialize {name} {ir}'))
 	answers = driver.ask_many([line for _, _, line in requests])
 	for (name, method, _), answer in zip(requests, answers):
 		ctx.case(('body', label, name, method), None)
@@ -198,9 +201,9 @@ MANIFEST = {
 		'directories, path styles and stale output directories (a finite closed instance, not a theorem). The theorems cover what a model can carry: '
 		'the emission plan (one class per declaration in declaration order, then one factory per abstract struct; TYPE_HINTS = the value-carrying own '
 		'members in layout order) is a function of the declarations alone, and the only hash-ordered iteration feeding the generator is order-independent '
-		'(C18). The plan and hint tables computed by the Lean model from the independent IR are compared with the ast skeleton of the module.'),
+		'(C18). The plan, the hint tables and the text of the serialize/_serialize/size/deserialize/_deserialize bodies computed by the Lean model from the independent IR are compared with the module (ast skeleton and body lines).'),
 	'level_note': (
-		'partial: only the serialize/_serialize/size bodies are modelled as text; byte identity is an executed comparison; yaml stand-in needed to import catparser.__main__; '
+		'partial: the serialize/_serialize/size/deserialize/_deserialize bodies are modelled as text, the rest of the module is not; byte identity is an executed comparison; yaml stand-in needed to import catparser.__main__; '
 		'Lean kernel + standard axioms for the plan theorems.'),
 	'technique': 'executed differential of the real generator over configurations + Lean theorems about the emission plan',
 }
